@@ -1,2 +1,164 @@
-/- Property theorems for C07 (placeholder until the proofs land). -/
-import Avt.Spec.C07
+/-
+  Avt.Props.C07 — property C07: erase, insert and delete touch exactly their documented extent.
+
+  All theorems are about the model (`Avt.Model.*`), for every terminal state satisfying the global
+  invariant (`TInv`, C02), every geometry, every count, every cursor column including the
+  wrap-pending one — no bounds.  The vocabulary (`editSpec`, `extent`, `clearsMark`, `cellAt`,
+  `markAt`, …) is defined in Avt/Spec/C07.lean and is what the oracle evaluates on implementation
+  states.
+
+  Obligations (all proved at full strength):
+    C07_edit  C07_outside_extent  C07_erased_cells  C07_decaln_cells  C07_ich_shift  C07_dch_shift
+    C07_wrap_marks  C07_wrap_marks_ed  C07_frame
+-/
+import Avt.Lemmas.C07Props
+
+namespace Avt.Props.C07
+open Avt Avt.Spec Avt.Spec.C07 Avt.C07L
+
+/-- ED 0/1/2/3, EL 0/1/2, ECH n, ICH n, DCH n, DECALN: total, and exactly `editSpec` -/
+theorem C07_edit (t : Terminal) (f : Function) (h : TInv t = true) (hf : coveredEdit f = true) :
+    t.execute f = some (editSpec t f) :=
+  edit_eq t f h hf
+
+/-- every cell outside the extent — in the cursor's row and in every other row — is unchanged -/
+theorem C07_outside_extent (t t' : Terminal) (f : Function) (h : TInv t = true)
+    (hf : coveredEdit f = true) (he : t.execute f = some t') (r c : Nat)
+    (hx : extent t f r c = false) : cellAt t' r c = cellAt t r c := by
+  rw [C07_edit t f h hf] at he
+  cases he
+  exact outside_extent t f h hf r c hx
+
+/-- ED / EL / ECH: every cell of the extent becomes a blank carrying the current pen -/
+theorem C07_erased_cells (t t' : Terminal) (f : Function) (h : TInv t = true)
+    (hf : erases f = true) (he : t.execute f = some t') (r c : Nat) (hr : r < t.rows)
+    (hc : c < t.cols) (hx : extent t f r c = true) : cellAt t' r c = some (Cell.blank t.pen) := by
+  have hcov : coveredEdit f = true := by cases f <;> simp_all [erases, coveredEdit]
+  rw [C07_edit t f h hcov] at he
+  cases he
+  exact inside_extent t f h hf r c hr hc hx
+
+/-- DECALN: 'E' (0x45) with the default pen in every cell of the view -/
+theorem C07_decaln_cells (t t' : Terminal) (h : TInv t = true) (he : t.execute .decaln = some t')
+    (r c : Nat) (hr : r < t.rows) (hc : c < t.cols) : cellAt t' r c = some ⟨0x45, Pen.default⟩ := by
+  rw [C07_edit t .decaln h rfl] at he
+  cases he
+  exact decaln_cells t h r c hr hc
+
+/-- ICH n: `k = min (as_usize n 1) (cols - col)` blanks at the cursor, the tail shifted right by `k`,
+    what falls off the right edge discarded (`k = 0` in the wrap-pending column: nothing moves) -/
+theorem C07_ich_shift (t t' : Terminal) (n : Nat) (h : TInv t = true)
+    (he : t.execute (.ich n) = some t') (c : Nat) :
+    cellAt t' t.cursor.row c =
+      if c < t.cursor.col then cellAt t t.cursor.row c
+      else if c < t.cursor.col + min (asUsize n 1) (t.cols - t.cursor.col) then some (Cell.blank t.pen)
+      else if c < t.cols then cellAt t t.cursor.row (c - min (asUsize n 1) (t.cols - t.cursor.col))
+      else none := by
+  rw [C07_edit t _ h rfl] at he
+  cases he
+  exact ich_row t h n c
+
+/-- DCH n: from `col' = min col (cols - 1)` (the cursor first leaves the wrap-pending column),
+    `k = min (as_usize n 1) (cols - col')` cells are deleted, the tail shifted left by `k`, `k` blanks
+    in the current pen appended -/
+theorem C07_dch_shift (t t' : Terminal) (n : Nat) (h : TInv t = true)
+    (he : t.execute (.dch n) = some t') (c : Nat) :
+    let col' := min t.cursor.col (t.cols - 1)
+    let k := min (asUsize n 1) (t.cols - col')
+    cellAt t' t.cursor.row c =
+      if c < col' then cellAt t t.cursor.row c
+      else if c + k < t.cols then cellAt t t.cursor.row (c + k)
+      else if c < t.cols then some (Cell.blank t.pen) else none := by
+  rw [C07_edit t _ h rfl] at he
+  cases he
+  exact dch_row t h n c
+
+/-- wrap marks, EL / ECH / ICH / DCH / DECALN: the cursor's row stops being soft-wrapped exactly for
+    EL 0, EL 2, DCH, and ECH reaching the end of the row (`clearsMark`); EL 1, ICH, DECALN and an ECH
+    that stops short leave it; no other row's mark changes -/
+theorem C07_wrap_marks (t t' : Terminal) (f : Function) (h : TInv t = true)
+    (hf : (∃ s, f = .el s) ∨ (∃ n, f = .ech n) ∨ (∃ n, f = .ich n) ∨ (∃ n, f = .dch n) ∨ f = .decaln)
+    (he : t.execute f = some t') (r : Nat) :
+    markAt t' r = if r = t.cursor.row ∧ clearsMark t f = true then some false else markAt t r := by
+  have hcov : coveredEdit f = true := by
+    rcases hf with ⟨s, hf⟩ | ⟨n, hf⟩ | ⟨n, hf⟩ | ⟨n, hf⟩ | hf <;> subst hf <;> rfl
+  rw [C07_edit t f h hcov] at he
+  cases he
+  exact marks_row_edits t f h hf r
+
+/-- wrap marks, ED: ED 0 clears the mark of the cursor's row and replaces the rows below by fresh
+    unwrapped rows; ED 1 replaces the rows above by fresh rows and leaves the cursor row's mark;
+    ED 2 makes every row fresh; ED 3 changes nothing -/
+theorem C07_wrap_marks_ed (t : Terminal) (h : TInv t = true) (r : Nat) :
+    (∀ t', t.execute (.ed .below) = some t' →
+        markAt t' r = if r < t.cursor.row then markAt t r else if r < t.rows then some false else none)
+    ∧ (∀ t', t.execute (.ed .above) = some t' →
+        markAt t' r = if r < t.cursor.row then some false else markAt t r)
+    ∧ (∀ t', t.execute (.ed .all) = some t' → markAt t' r = if r < t.rows then some false else none)
+    ∧ (∀ t', t.execute (.ed .savedLines) = some t' → t' = t) := by
+  obtain ⟨h1, h2, h3, _⟩ := marks_ed t h r
+  refine ⟨fun t' he => ?_, fun t' he => ?_, fun t' he => ?_, fun t' he => ?_⟩
+  · rw [C07_edit t _ h rfl] at he; cases he; exact h1
+  · rw [C07_edit t _ h rfl] at he; cases he; exact h2
+  · rw [C07_edit t _ h rfl] at he; cases he; exact h3
+  · rw [C07_edit t _ h rfl] at he; cases he; rfl
+
+/-- the cursor and all modes stay exactly as they were: after a covered function everything except
+    the view, the changed-row flags, the cursor column and the wrap-pending flag equals the old
+    state; the cursor row and visibility never change; and the cursor column / wrap-pending flag
+    change only for DCH issued from the wrap-pending column, which first moves to the last column -/
+theorem C07_frame (t t' : Terminal) (f : Function) (h : TInv t = true) (hf : coveredEdit f = true)
+    (he : t.execute f = some t') :
+    ({ t' with buffer := { t'.buffer with view := t.buffer.view }
+               dirtyLines := t.dirtyLines, cursor := t.cursor, pendingWrap := t.pendingWrap } : Terminal) = t
+    ∧ t'.cursor.row = t.cursor.row ∧ t'.cursor.visible = t.cursor.visible
+    ∧ ((∃ n, f = .dch n) ∧ t.cursor.col ≥ t.cols → t'.cursor.col = t.cols - 1 ∧ t'.pendingWrap = false)
+    ∧ (¬ ((∃ n, f = .dch n) ∧ t.cursor.col ≥ t.cols) →
+        t'.cursor = t.cursor ∧ t'.pendingWrap = t.pendingWrap) := by
+  rw [C07_edit t f h hf] at he
+  cases he
+  obtain ⟨h1, h2, h3, h4⟩ := edit_frame t f
+  refine ⟨h1, h2, h3, fun hd => ?_, fun hd => ?_⟩
+  · obtain ⟨⟨n, hn⟩, hge⟩ := hd
+    subst hn
+    simp [editSpec, onRow, withView, leavePending, hge]
+  · rcases h4 with h4 | h4
+    · exact absurd h4 hd
+    · exact h4
+
+/-! ### the hypotheses are satisfiable: a 4x2 terminal, coloured pen, soft-wrapped first row, cursor
+    in the wrap-pending column -/
+
+private def exPen : Pen := { fg := some (.indexed 1), attrs := 1 }
+private def exRow (c : Nat) (w : Bool) : Line := ⟨[⟨c, {}⟩, ⟨c + 1, {}⟩, ⟨c + 2, {}⟩, ⟨c + 3, {}⟩], w⟩
+
+private def exT : Terminal :=
+  { cols := 4, rows := 2,
+    buffer := { sb := [], view := [exRow 0x61 true, exRow 0x65 false],
+                cols := 4, rows := 2, limit := none, trimNeeded := false },
+    otherBuffer := Buffer.new 4 2 (some 0) none,
+    activeBufferType := .primary, scrollbackLimit := none,
+    cursor := { col := 4, row := 0 }, pen := exPen, charsets := (.ascii, .ascii), activeCharset := 0,
+    tabs := [], insertMode := false, originMode := false, autoWrapMode := true, newLineMode := false,
+    cursorKeysMode := .normal, pendingWrap := true, topMargin := 0, bottomMargin := 1,
+    savedCtx := {}, alternateSavedCtx := {}, dirtyLines := [false, false],
+    xtwinops := false }
+
+example : TInv exT = true := by decide
+
+/-- DCH 2 from the wrap-pending column: the cursor moves to the last column, one cell (capped) is
+    deleted there, the row loses its wrap mark, row 1 is untouched -/
+example : exT.execute (.dch 2) = some
+    { exT with
+      buffer := { exT.buffer with
+        view := [⟨[⟨0x61, {}⟩, ⟨0x62, {}⟩, ⟨0x63, {}⟩, Cell.blank exPen], false⟩, exRow 0x65 false] },
+      cursor := { col := 3, row := 0 }, pendingWrap := false,
+      dirtyLines := [true, false] } := by
+  rw [C07_edit exT _ (by decide) rfl]
+  decide
+
+/-- EL 1 from the wrap-pending column erases the whole row and keeps the wrap mark -/
+example : (editSpec exT (.el .toLeft)).buffer.view
+    = [⟨List.replicate 4 (Cell.blank exPen), true⟩, exRow 0x65 false] := by decide
+
+end Avt.Props.C07
